@@ -7,6 +7,7 @@ import (
 	"context"
 	"encoding/json"
 	"fmt"
+	"os"
 	"regexp"
 	"runtime/debug"
 	"sort"
@@ -14,6 +15,8 @@ import (
 
 	"github.com/vektah/gqlparser/v2"
 	gast "github.com/vektah/gqlparser/v2/ast"
+
+	"github.com/wundergraph/graphql-go-tools/execution/engine"
 
 	"verifharness/internal/fed"
 	"verifharness/internal/fw"
@@ -101,7 +104,21 @@ func (c *Case) Rebuild() error {
 	if c.GW != nil {
 		c.GW.Close()
 	}
-	gw, err := fed.NewGateway(c.L, c.SuperGql, c.U, c.Opts)
+	opts := c.Opts
+	if dbg := os.Getenv("C01MIN_DEBUG"); dbg != "" && opts.Configure == nil {
+		opts.Configure = func(conf *engine.Configuration) {
+			pc := conf.VerifPlannerConfiguration()
+			pc.Debug.PrintOperationTransformations = true
+			pc.Debug.PrintPlanningPaths = strings.Contains(dbg, "paths")
+			pc.Debug.PrintNodeSuggestions = strings.Contains(dbg, "sugg")
+			pc.Debug.PrintQueryPlans = strings.Contains(dbg, "plans")
+			pc.Debug.PlanningVisitor = strings.Contains(dbg, "pv")
+			pc.Debug.DatasourceVisitor = strings.Contains(dbg, "dv")
+			pc.Debug.NodeSelectionVisitor = strings.Contains(dbg, "nsv")
+			pc.Debug.ConfigurationVisitor = strings.Contains(dbg, "cv")
+		}
+	}
+	gw, err := fed.NewGateway(c.L, c.SuperGql, c.U, opts)
 	if err != nil {
 		return err
 	}
